@@ -17,7 +17,7 @@ CLAIM = {
     "note": "Trusted: Lean kernel; model JP.Patch (in-place mutation modelled as write-back on trees: documents without aliasing) validated "
             "differentially; 'a copied value is independent of its source' is decided by the correspondence on histories and an identity probe, "
             "not by a theorem (the pure model has no references). Negative indices and '#'/'~' tokens are documented pointer extensions and "
-            "are outside the RFC comparison (still covered by the model correspondence).",
+            "are outside the RFC comparison (still covered by the model correspondence); what negative indices mean is stated outright (negative_index_remove / _replace / _out_of_range). Member names that are integers beyond +-(2^53-1): known finding C05-KF1.",
     "technique": "Lean 4 refinement proof (patch.py model vs RFC 6902 on immutable values) + differential correspondence",
 }
 RULE = ("every single add/remove/replace/test (x value pool) and move/copy (x path pairs; sampled in quick) whose paths are an existing "
